@@ -40,6 +40,10 @@ type SQuant struct {
 	Body   SExpr
 }
 type SCond struct{ C, A, B SExpr }
+type SLambda struct {
+	Var  string
+	Body SExpr
+}
 
 // ---- lexer ----
 
@@ -173,6 +177,16 @@ func (p *sparser) expectOp(o string) {
 }
 
 func (p *sparser) expr() SExpr {
+	if p.isID("lambda") {
+		p.next()
+		if p.cur().k != "id" {
+			p.fail("expected lambda variable")
+		}
+		name := p.next().v
+		p.expectOp("::")
+		body := p.expr()
+		return &SLambda{Var: name, Body: body}
+	}
 	if p.isID("forall") || p.isID("exists") {
 		fa := p.next().v == "forall"
 		var vars []QVar
@@ -433,6 +447,8 @@ func specString(e SExpr) string {
 			vs = append(vs, v.Name+" "+v.Sort)
 		}
 		return "(" + q + " " + strings.Join(vs, ", ") + " :: " + specString(e.Body) + ")"
+	case *SLambda:
+		return "(lambda " + e.Var + " :: " + specString(e.Body) + ")"
 	case *SCond:
 		return "(" + specString(e.C) + " ? " + specString(e.A) + " : " + specString(e.B) + ")"
 	}
